@@ -54,3 +54,6 @@
   (ite (bvult i #x0100000000000000) (_ bv7 64) (_ bv8 64)))))))))
 ; canonical header length for a payload of the given size
 (define-fun rlp_headlen ((size (_ BitVec 64))) (_ BitVec 64) (ite (bvult size (_ bv56 64)) (_ bv1 64) (bvadd (_ bv1 64) (rlp_bytelen size))))
+; length of the RLP encoding of a Go value (observer of the interface value handed to rlp.Encode)
+(declare-fun rlpenclen (Iface) (_ BitVec 64))
+(assert (forall ((x Iface)) (! (bvule (rlpenclen x) #x0000010000000000) :pattern ((rlpenclen x)))))
